@@ -432,6 +432,177 @@ theorem robin_not_translation_consistent :
   linarith
 
 
+
+
+/-! ### well-formed faces: `FaceOK` from decidable input conditions -/
+
+theorem sumTwoM_nonneg (ss : List Side) (h : ∀ s ∈ ss, 0 < s.mu ∧ 0 < s.delta) : 0 ≤ sumTwoM ss := by
+  induction ss with
+  | nil => simp [sumTwoM, sideSum]
+  | cons s ss ih =>
+    have hs := h s List.mem_cons_self
+    have hm : 0 < s.m := div_pos hs.1 hs.2
+    have := ih (fun s' hs' => h s' (List.mem_cons_of_mem _ hs'))
+    simp only [sumTwoM, sideSum] at this ⊢
+    linarith
+
+theorem sumTwoM_pos (ss : List Side) (hne : ss ≠ []) (h : ∀ s ∈ ss, 0 < s.mu ∧ 0 < s.delta) : 0 < sumTwoM ss := by
+  cases ss with
+  | nil => exact absurd rfl hne
+  | cons s ss =>
+    have hs := h s List.mem_cons_self
+    have hm : 0 < s.m := div_pos hs.1 hs.2
+    have := sumTwoM_nonneg ss (fun s' hs' => h s' (List.mem_cons_of_mem _ hs'))
+    simp only [sumTwoM, sideSum] at this ⊢
+    linarith
+
+/-- the face hypothesis of the translation theorems follows from well-formedness -/
+theorem faceOK_of_wf (dim3 : Bool) (f : Face) (h : FaceWF dim3 f) : FaceOK dim3 f := by
+  obtain ⟨hpos, hshape⟩ := h
+  cases hs : f.sides with
+  | nil => simp [hs] at hshape
+  | cons a l =>
+    cases l with
+    | nil =>
+      simp only [hs] at hshape
+      refine ⟨fun d hd => ⟨?_, ?_⟩, ?_⟩
+      · rcases hshape d hd with h | h <;> simp [h, BC.isRob]
+      · intro hi; rcases hshape d hd with h | h <;> simp [h] at hi
+      · exact ne_of_gt (sumTwoM_pos f.sides (by simp [hs]) hpos)
+    | cons b l2 =>
+      cases l2 with
+      | nil =>
+        simp only [hs] at hshape
+        refine ⟨fun d hd => ⟨?_, ?_⟩, ?_⟩
+        · simp [hshape.2 d hd, BC.isRob]
+        · intro _; simp only [sgnSum, hs, sideSum]; linarith [hshape.1]
+        · exact ne_of_gt (sumTwoM_pos f.sides (by simp [hs]) hpos)
+      | cons c l3 => simp [hs] at hshape
+
+/-- the translation solves the full system on every grid of well-formed faces with consistent data and closed
+    cells: no hypothesis left that is not a decidable condition on the input data -/
+theorem tpsa_translation_solves_wf (dim3 : Bool) (fs : Faces) (cells : Nat → Cell) (t : Vec) (c : Nat)
+    (hwf : ∀ p ∈ fs, FaceWF dim3 p.1 ∧ ∀ d ∈ dirs dim3, Consistent p.1 t p.2 d)
+    (hclosed : closure c fs = Vec.zero) :
+    resid dim3 fs cells (translation t) c = Resid.zero :=
+  tpsa_translation_solves dim3 fs cells t c
+    (fun p hp => ⟨faceOK_of_wf dim3 p.1 (hwf p hp).1, (hwf p hp).2⟩) hclosed
+
+
+/-! ### the transmissibility hypothesis of `nonsingular_one_cell_dirichlet` from positivity -/
+
+theorem cellSum_nonpos (c : Nat) (fs : Faces) (φ : Face → Vec → Rat)
+    (h : ∀ p ∈ fs, PorepyVerif.C16.sgnOf c p.1 * φ p.1 p.2 < 0) : cellSum c fs φ ≤ 0 := by
+  induction fs with
+  | nil => simp [cellSum]
+  | cons p fs ih =>
+    obtain ⟨f, g⟩ := p
+    have h0 := h (f, g) List.mem_cons_self
+    have := ih (fun q hq => h q (List.mem_cons_of_mem _ hq))
+    simp only [cellSum]
+    linarith
+
+theorem cellSum_neg (c : Nat) (fs : Faces) (φ : Face → Vec → Rat) (hne : fs ≠ [])
+    (h : ∀ p ∈ fs, PorepyVerif.C16.sgnOf c p.1 * φ p.1 p.2 < 0) : cellSum c fs φ < 0 := by
+  cases fs with
+  | nil => exact absurd rfl hne
+  | cons p fs =>
+    obtain ⟨f, g⟩ := p
+    have h0 := h (f, g) List.mem_cons_self
+    have := cellSum_nonpos c fs φ (fun q hq => h q (List.mem_cons_of_mem _ hq))
+    simp only [cellSum]
+    linarith
+
+/-- positive areas, shear moduli and distances and signs ±1 make the sum of the face transmissibilities non-zero -/
+theorem oneCell_K_ne_zero (fs : Faces) (hne : fs ≠ []) (h1 : OneCellDir fs)
+    (hpos : ∀ p ∈ fs, 0 < p.1.area ∧ ∀ s ∈ p.1.sides, 0 < s.mu ∧ 0 < s.delta ∧ s.sgn * s.sgn = 1) (d : Dir) :
+    cellSum 0 fs (fun f _ => -(tShear f d * sgnSum f.sides)) ≠ 0 := by
+  apply ne_of_lt
+  apply cellSum_neg 0 fs _ hne
+  intro p hp
+  have hD := h1 p hp
+  obtain ⟨s, hs, hc⟩ := hD.side
+  obtain ⟨hA, hS⟩ := hpos p hp
+  obtain ⟨hmu, hdl, hsg⟩ := hS s (by rw [hs]; exact List.mem_singleton_self s)
+  have hm : 0 < s.m := div_pos hmu hdl
+  have hT : tShear p.1 d = 2 * p.1.area / (1 / s.m) := by
+    simp [tShear, sumInvM, hs, sideSum, hD.bc d, BC.robInv]
+  have hTpos : 0 < tShear p.1 d := by
+    rw [hT]; exact div_pos (by linarith) (one_div_pos.mpr hm)
+  rw [hD.sgnOf_eq]
+  have hsum : sgnSum p.1.sides = s.sgn := by simp [sgnSum, hs, sideSum]
+  rw [hsum]
+  have : s.sgn * -(tShear p.1 d * s.sgn) = -(tShear p.1 d) * (s.sgn * s.sgn) := by ring
+  rw [this, hsg]
+  linarith
+
+/-- … so on one-cell grids with positive data the solve provably returns the translation: every hypothesis is
+    a decidable condition on the input data -/
+theorem tpsa_translation_unique_one_cell_pos (dim3 : Bool) (fs : Faces) (cells : Nat → Cell) (t : Vec)
+    (hne : fs ≠ []) (hG : GridOK dim3 fs t) (h1 : OneCellDir fs) (hcl : closure 0 fs = Vec.zero)
+    (hpos : ∀ p ∈ fs, 0 < p.1.area ∧ ∀ s ∈ p.1.sides, 0 < s.mu ∧ 0 < s.delta ∧ s.sgn * s.sgn = 1)
+    (hc : 0 < (cells 0).vol ∧ 0 < (cells 0).mu ∧ 0 < (cells 0).lam)
+    (st : State) (hst : Solves dim3 fs cells 1 st) :
+    (∀ d ∈ dirs dim3, (st.u 0).get d = t.get d)
+      ∧ (if dim3 then st.r 0 = Vec.zero else (st.r 0).z = 0) ∧ st.p 0 = 0 :=
+  tpsa_translation_unique_one_cell dim3 fs cells t hG h1 hcl (fun d _ => oneCell_K_ne_zero fs hne h1 hpos d)
+    (ne_of_gt (div_pos hc.1 hc.2.1)) (ne_of_gt (div_pos hc.1 hc.2.2)) st hst
+
+example (st : State) (hst : Solves false triCell (fun _ => ⟨1, 3, 7⟩) 1 st) : (st.u 0).x = 1 :=
+  (tpsa_translation_unique_one_cell_pos false triCell (fun _ => ⟨1, 3, 7⟩) ⟨1, -1, 0⟩ (by decide) (by decide +kernel)
+    (by decide +kernel) (by decide +kernel) (by decide +kernel) (by decide +kernel) st hst).1 .x (by simp [dirs])
+
+/-! ### parameter validation and `ndof` -/
+
+/-- the default `BoundaryConditionVectorial` data (identity basis, diagonal Robin weights) with no Robin direction —
+    i.e. every input the property quantifies over — passes the checks: the property's inputs never reach an
+    error branch -/
+theorem validate_ok (bs : List BcFace)
+    (h : ∀ b ∈ bs, b.isRob ≠ [] ∧ (∀ r ∈ b.isRob, r = false) ∧ (∀ q ∈ b.basisOff, q = 0) ∧ (∀ q ∈ b.basisDiag, q = 1)
+      ∧ (∀ q ∈ b.robOff, q = 0)) : validate bs = true := by
+  unfold validate
+  rw [List.all_eq_true]
+  intro b hb
+  obtain ⟨h0, h1, h2, h3, h4⟩ := h b hb
+  have e1 : b.basisOff.any (fun q => decide (0 < q)) = false := by
+    rw [List.any_eq_false]; intro q hq; simp [h2 q hq]
+  have e2 : b.basisDiag.all (fun q => decide (q = 1)) = true := by
+    rw [List.all_eq_true]; intro q hq; simp [h3 q hq]
+  have e3 : b.robOff.any (fun q => decide (0 < q)) = false := by
+    rw [List.any_eq_false]; intro q hq; simp [h4 q hq]
+  have e4 : b.isRob.any id = false := by
+    rw [List.any_eq_false]; intro r hr; simp [h1 r hr]
+  have e5 : b.isRob.all id = false := by
+    cases hl : b.isRob with
+    | nil => exact absurd hl h0
+    | cons r l => have := h1 r (by rw [hl]; exact List.mem_cons_self); simp [this]
+  unfold validFace
+  simp [e1, e2, e3, e4, e5]
+
+/-- a face that mixes Robin with another kind is rejected -/
+theorem validate_rejects_mixed (b : BcFace) (bs : List BcFace) (hb : b ∈ bs)
+    (h1 : true ∈ b.isRob) (h2 : false ∈ b.isRob) : validate bs = false := by
+  have hany : b.isRob.any id = true := List.any_eq_true.mpr ⟨true, h1, rfl⟩
+  have hall : b.isRob.all id = false := by
+    rw [List.all_eq_false]; exact ⟨false, h2, by simp⟩
+  have : validFace b = false := by simp [validFace, hany, hall]
+  unfold validate
+  rw [List.all_eq_false]
+  exact ⟨b, hb, by simp [this]⟩
+
+/-- `ndof` is the number of unknowns of the assembled system (displacement nd, rotation 1 / 3, pressure 1 per cell) -/
+theorem ndof_counts_unknowns (nc : Nat) :
+    ndof 2 nc = some (nc * (2 + 1 + 1)) ∧ ndof 3 nc = some (nc * (3 + 3 + 1))
+      ∧ ∀ dim, dim ≠ 2 → dim ≠ 3 → ndof dim nc = none := by
+  refine ⟨by simp [ndof], by simp [ndof], ?_⟩
+  intro dim h2 h3
+  simp [ndof, h2, h3]
+
+example : validate [⟨[false, false], [0, 0], [1, 1], [0, -3]⟩, ⟨[true, true], [0, 0], [1, 1], [0, 0]⟩] = true := by decide
+example : validate [⟨[true, false], [0, 0], [1, 1], [0, 0]⟩] = false := by decide
+example : validate [⟨[false, false], [0, 0], [1, 1], [0, 2]⟩] = false := by decide
+
+
 /-! ### non-vacuity: concrete grids -/
 
 section Examples
@@ -631,6 +802,8 @@ example (st : State) (hst : Solves false grid21 cells21 2 st) (c : Nat) (hc : c 
   refine ⟨hu .x (by simp [dirs]), hu .y (by simp [dirs]), ?_, hp⟩
   simpa using hr
 
+
+example : ∀ p ∈ sqMixed, FaceWF false p.1 := by decide +kernel
 
 end Examples
 
